@@ -196,3 +196,8 @@ def ast_copy(node):
         if hasattr(node, a):
             setattr(new, a, getattr(node, a))
     return new
+
+
+def tail(c) -> str:
+    """Method / function name of a call (last attribute), '' if not a call"""
+    return last_attr(c) or ""
